@@ -354,5 +354,53 @@ def history_free(ctx: Ctx, prop: str):
                         res.instance("HISTORY-FREE", f"{f.qname}: in-place edit of {nm}", sample={"origin": taken[nm], "ok": False})
                         ctx.finding("HISTORY-FREE", f, s, f"`{nm}` comes from the {taken[nm]} and is modified in place by {what}: the shared object is changed, so the next call that hits the same entry starts from the modified value", construct=f"{f.name}: in-place edit of cached `{nm}`")
     res.instance("HISTORY-FREE", f"{prop}: functions of the anchored modules examined", sample={"functions": n_funcs, "modules": files})
+    mask_argmax(ctx, prop, files)
     if n_funcs == 0:
         raise AnalysisError("HISTORY-FREE: no function of the anchored modules was examined")
+
+
+# ---------------------------------------------------------------------------------
+# MASK-ARGMAX: "position of the first True" needs a True
+# ---------------------------------------------------------------------------------
+def mask_argmax(ctx: Ctx, prop: str, files):
+    """argmax (argmin) of a boolean mask is 0 both when the first entry is True and when *no* entry is:
+    used as a count, a slice bound or an index it silently selects nothing / the first element exactly
+    in the case the mask was meant to exclude.  Every argmax / argmin whose argument is a comparison (or
+    a local bound to one) must be accompanied, in the same function, by an `any(...)` / `all(...)` test
+    of that mask (or of its negation)."""
+    repo, res = ctx.repo, ctx.res
+    res.rule("MASK-ARGMAX", "in the anchored modules no argmax / argmin is taken over a boolean mask (a comparison, or a local bound to one) without an any() / all() test of that mask in the same function: the position of the first True is 0 also when nothing is True", floor=1)
+    n_calls = n_masks = 0
+    for rel in files:
+        mod = next((m for m in repo.modules.values() if m.rel == rel), None)
+        if mod is None:
+            continue
+        for f in [g for g in repo.functions.values() if g.module is mod]:
+            for c in own_scope_nodes(f.node):
+                if not (isinstance(c, ast.Call) and (call_name(c) or "") in ("argmax", "argmin")):
+                    continue
+                n_calls += 1
+                arg = c.args[0] if c.args else (c.func.value if isinstance(c.func, ast.Attribute) and not isinstance(c.func.value, ast.Name) else None)
+                if arg is None and isinstance(c.func, ast.Attribute) and isinstance(c.func.value, ast.Name) and c.func.value.id not in ("tl", "T", "np", "numpy", "tensorly"):
+                    arg = c.func.value  # mask.argmax()
+                if arg is None:
+                    continue
+                full = inline_locals(f.node, arg)
+                while isinstance(full, ast.Call) and (call_name(full) or "") in ("tensor", "asarray", "array", "to_numpy", "astype", "reshape") and full.args:
+                    full = full.args[0]
+                is_mask = isinstance(full, ast.Compare) or (isinstance(full, ast.UnaryOp) and isinstance(full.op, (ast.Invert, ast.Not))) or (isinstance(full, ast.BoolOp)) or (isinstance(full, ast.BinOp) and isinstance(full.op, (ast.BitAnd, ast.BitOr)) and isinstance(full.left, ast.Compare))
+                if not is_mask:
+                    continue
+                n_masks += 1
+                tested = False
+                for t in own_scope_nodes(f.node):
+                    if isinstance(t, ast.Call) and (call_name(t) or "") in ("any", "all") and t.args:
+                        ta = inline_locals(f.node, t.args[0])
+                        while isinstance(ta, ast.UnaryOp):
+                            ta = ta.operand
+                        if src(ta) == src(full) or (isinstance(ta, ast.Compare) and isinstance(full, ast.Compare) and src(ta.left) == src(full.left) and src(ta.comparators[0]) == src(full.comparators[0])):
+                            tested = True
+                res.instance("MASK-ARGMAX", f"{f.qname}: {src(c)[:60]}", sample={"mask": src(full)[:80], "guarded_by_any_all": tested, "ok": tested})
+                if not tested:
+                    ctx.finding("MASK-ARGMAX", f, c, f"`{src(c)[:80]}` takes the position of the first True of the mask `{src(full)[:70]}`; when no entry is True the result is 0, exactly as when the first entry is: used as a count / bound it then keeps nothing (or the wrong element) in the case where every entry passes. Count the entries (sum / len) or test any() first", construct=f"{f.name}: argmax of a mask {src(full)[:50]}")
+    res.instance("MASK-ARGMAX", f"{prop}: argmax / argmin calls examined", sample={"calls": n_calls, "over_masks": n_masks})
